@@ -9,6 +9,9 @@ from kappadata.utils.getall_as_tensor import getall_as_tensor
 class IntraClassShuffleWrapper(KDSubset):
     def __init__(self, dataset, seed=None):
         num_classes = dataset.getdim_class()
+        if num_classes == 1:
+            # binary classification (same convention as get_class_counts)
+            num_classes = 2
         classes = getall_as_tensor(dataset)
         rng = GlobalRng() if seed is None else np.random.default_rng(seed=seed)
         # create permutation per class
